@@ -1,4 +1,5 @@
 import Model.NewWithFS
+import Model.Restart
 import Driver.OS
 open BFS
 namespace Driver
@@ -134,7 +135,7 @@ def bfsCmd (st : BState) : List (List Char) → Option (BState × List (List Cha
         some (st, ps.flatMap (fun p => p :: showInfoOpt ((st.w.infos.lookup p).join)))
     | "bfs.reload", [] =>
         -- MarshalJSON, process restart, UnmarshalJSON into a fresh BackupFS over the same filesystems
-        some ({ st with w := { st.w with infos := reloadInfos st.w.infos } }, [s2l "ok"])
+        some ({ st with w := restart st.w }, [s2l "ok"])      -- Model/Restart.lean
     | "bfs.trace", [mode] =>
         -- "mut": mutating events only; "all": every event
         let evs := st.w.trace.reverse
